@@ -57,7 +57,7 @@ def cases(tier, seed):
         out = [f"{lay}/{ik}/2" for lay in ("single-v", "wdwe", "season") for ik in ("pacific-dst", "gap")]
         out += ["single/pacific-dst/3", "single/unsorted/3"]
         out += ["billing-agg/flat/3", "billing-agg/v/2"]
-    out += ["history/wdwe-flat/5", "history/season/5", "dataclass/daily/elec", "dataclass/daily/dup", "hourly-data/gaps/x", "caltrack/usage/x", "hourly/standardscaler/x", "hourly/robustscaler/x"]
+    out += ["history/wdwe-flat/5", "history/season/5", "dataclass/daily/elec", "dataclass/daily/dup", "dataclass/daily/long", "hourly-data/gaps/x", "caltrack/usage/x", "hourly/standardscaler/x", "hourly/robustscaler/x"]
     return out
 
 
@@ -129,6 +129,8 @@ def run_case(case: Case, name: str):
         return run_hourly_data(case)
     if lay == "caltrack":
         return run_caltrack(case)
+    if lay == "dataclass" and n == "long":
+        return run_dataclass_long(case)
     if lay == "dataclass":
         return run_dataclass_dup(case) if n == "dup" else run_dataclass(case)
     if lay == "hourly":
@@ -596,6 +598,74 @@ def run_caltrack(case):
             case.violation(label, "caltrack", inp, det)
         case.regime("CalTRACK hourly model predicts with and without usage")
     case.sample(dict(family="CalTRACK hourly", scenarios=len(paths)))
+
+
+# a reporting period longer than a year, built with from_series from daily usage and hourly weather: the daily temperatures
+# (all the prediction is computed from) must not depend on the usage series - blank days, a blank or missing tail, scaling
+LONG_VARIANTS = ["none", "blank-interior", "blank-two-days", "blank-tail", "cut", "scaled", "all-blank"]
+
+
+def _long_frame(variant, start, days=400):
+    from opendsm.eemeter.models.daily.data import DailyReportingData
+    tz = "US/Pacific"
+    midx = pd.date_range(start, periods=days, freq="D", tz=tz)
+    rng = np.random.default_rng(4)
+    usage = pd.Series(10 + rng.random(days), index=midx, name="observed")
+    tidx = pd.date_range(midx[0], midx[-1] + pd.Timedelta(days=1), freq="h", inclusive="left")
+    temp = pd.Series(50 + 20 * np.sin(np.arange(len(tidx)) / 500.0) + rng.normal(0, 2, len(tidx)), index=tidx, name="temperature")
+    if variant == "none":
+        return DailyReportingData.from_series(None, temp, is_electricity_data=False, tzinfo=midx.tz).df
+    if variant == "blank-interior":
+        usage.iloc[380] = np.nan  # the same day of the year has a reading in the first year
+    elif variant == "blank-two-days":
+        usage.iloc[[200, 381]] = np.nan
+    elif variant == "blank-tail":
+        usage.iloc[385:] = np.nan
+    elif variant == "cut":
+        usage = usage.iloc[:385]
+    elif variant == "scaled":
+        usage = usage * 3
+    elif variant == "all-blank":
+        usage[:] = np.nan
+    return DailyReportingData.from_series(usage, temp, is_electricity_data=False).df
+
+
+def replay_dataclass_long(inp):
+    import logging
+    logging.disable(logging.CRITICAL)
+    ref, alt = _long_frame("full", inp["start"]), _long_frame(inp["variant"], inp["start"])
+    common = ref.index.intersection(alt.index)
+    pr = []
+    if len(common) < 380:
+        pr.append(f"only {len(common)} common days")
+    a, b = ref.loc[common, "temperature"].to_numpy(dtype=float), alt.loc[common, "temperature"].to_numpy(dtype=float)
+    bad = [i for i in range(len(common)) if not ((a[i] != a[i] and b[i] != b[i]) or a[i] == b[i])]
+    if bad:
+        pr.append(f"{len(bad)} daily temperatures depend on the usage series ('{inp['variant']}'), e.g. {common[bad[0]].date()}: {a[bad[0]]} with full usage, {b[bad[0]]} otherwise")
+    return bool(pr), "; ".join(pr)
+
+
+REPLAY["dataclass_long"] = replay_dataclass_long
+
+
+def run_dataclass_long(case):
+    case.inputs = []
+
+    def run():
+        inp = dict(variant=F.choose("variant", LONG_VARIANTS), start=F.choose("start", ["2021-05-01", "2021-01-10"]))
+        return inp, replay_dataclass_long(inp)
+
+    paths = case.explore(run)
+    for p in paths:
+        if p.outcome != "ret":
+            case.rep["harness_errors"].append(f"long-period scenario raised {p.value!r}")
+            continue
+        inp, (bad, det) = p.value
+        label = "daily temperatures of a period longer than a year (from_series) do not depend on the usage series"
+        if not case.ground(not bad, label):
+            case.violation(label, "dataclass_long", inp, det)
+        case.regime("reporting period longer than a year with blank usage days")
+    case.sample(dict(entry="DailyReportingData.from_series, 400 days", scenarios=len(paths)))
 
 
 # a timestamp delivered twice (CalTRACK 2.3.2.2 keeps the first record): which record's temperature survives must not
